@@ -264,6 +264,73 @@ def weights_corpus(tier, seed):
     return inputs
 
 
+def wide_lp(res, tier, seed):
+    """electorates of 10^4 .. 10^7 voters whose distributions differ by a handful of voters (ranking shares 1e-4 .. 1e-7 apart): the
+    cross-multiplied shares leave TLC's 32-bit range, so Metrics!LpDist is read in exact Python fractions here (declared in evidence as
+    python_compared): identity of indiscernibles (d = 0 iff the distributions are equal), symmetry, triangle inequality, and the value
+    itself to a relative 1e-9."""
+    load_votekit()
+    from .. import elections as E
+    from votekit.metrics import lp_dist
+    E.fast_df(True)
+    rng = random.Random(1990 + seed)
+    n = 0
+    for _ in range(120 if tier == "quick" else 2500):
+        nc = rng.randint(3, 5)
+        cands = D.ABC[:nc]
+        rk = rng.sample(D.untied_rankings(cands), rng.randint(2, 5))
+        scale = rng.choice([10**4, 10**5, 10**6, 10**7])
+        base = [rng.randint(1, 9) * scale + rng.randint(0, 99) for _ in rk]
+
+        def perturbed():
+            w = list(base)
+            for _ in range(rng.randint(0, 3)):
+                i, j = rng.randrange(len(w)), rng.randrange(len(w))
+                k = rng.randint(1, 5)
+                if i != j and w[i] > k:
+                    w[i] -= k
+                    w[j] += k
+            return w
+        ws = [base, perturbed(), perturbed()]
+        if rng.random() < 0.15:
+            ws[1] = [3 * x for x in base]                   # the same distribution at another scale
+        profs = [E.build_profile(cands, [{"r": r, "w": [x, 1]} for r, x in zip(rk, w)]) for w in ws]
+        p = rng.choice([1, 1, 2, 3, "inf"])
+
+        def exact(u, v):
+            su, sv = sum(u), sum(v)
+            diffs = [abs(F(a, su) - F(b, sv)) for a, b in zip(u, v)]
+            if p == "inf":
+                return float(max(diffs))
+            return float(sum(d ** p for d in diffs)) ** (1.0 / p) if p > 1 else float(sum(diffs))
+        n += 1
+        try:
+            with quiet():
+                d = {(i, j): float(lp_dist(profs[i], profs[j], p)) for i in range(3) for j in range(3)}
+        except Exception as ex:  # noqa
+            res.violation("lp_dist:WideElectorates(py):Error", "%s on electorates of about %d voters" % (type(ex).__name__, scale), {"weights": ws, "p": p})
+            continue
+        bad = None
+        for i in range(3):
+            for j in range(3):
+                e = exact(ws[i], ws[j])
+                if (e == 0) != (d[i, j] == 0):
+                    bad = bad or "Identity"
+                elif abs(d[i, j] - e) > 1e-9 * max(e, 1e-300) + 1e-15:
+                    bad = bad or "Value"
+                if d[i, j] != d[j, i]:
+                    bad = bad or "Symmetry"
+        if not bad and d[0, 2] > d[0, 1] + d[1, 2] + 1e-12:
+            bad = "Triangle"
+        if bad:
+            res.violation("lp_dist:WideElectorates(py):%s" % bad, "lp_dist (p=%s) on electorates of about %d voters whose distributions differ by a few voters: "
+                          "clause %s of the exact-fraction reading of Metrics!LpDist" % (p, scale, bad),
+                          {"rankings": rk, "weights": ws, "p": p, "returned": {"%d%d" % k: v for k, v in d.items()}})
+    res.notes["python_compared"] = n
+    res.notes["python_compared_note"] = ("lp_dist on electorates of 10^4-10^7 voters (shares 1e-4..1e-7 apart) is compared with the exact-fraction reading of "
+                                         "Metrics!LpDist: identity, symmetry, triangle, value to 1e-9 relative")
+
+
 def sig_of(t, rec):
     op = {"lp": "lp_dist", "graph": "ballot_graph", "weights": "ballot_graph_weights"}[t["op"]]
     extra = ""
@@ -323,6 +390,8 @@ def run(tier, seed, replay=None):
     while len(res.samples) < 4 and traces:
         res.sample({"op": traces[0]["op"], "note": "filler so that no multi-kilobyte graph dump is sampled"})
     judge_calls(res, PID, "MetricsTrace", traces, sig_of=sig_of, what="lp_dist / BallotGraph disagrees with the statement", inexact_is_violation=False)
+    if not replay:
+        wide_lp(res, tier, seed)
     res.notes["calls_by_op"] = counts
     res.notes["graph_n_checked_by_tlc"] = sorted({t["n"] for t in traces if t["op"] == "graph"})
     res.notes["float_policy"] = ("lp_dist floats logged as nearest rational with denominator <= 10^4 when within 1e-9 relative, else 'inexact' "
